@@ -174,7 +174,7 @@ SHORT = {
  "C06-i": ("overdraft marks active leases by dseq only (empty owner = any owner)", "another tenant with the same dseq and an active lease"),
  "C06-j": ("deployment store keys keep the low 32 bits of dseq", "dseq >= 2^32 equal to an existing dseq modulo 2^32"),
  "C07-i": ("escrow keeper reuses a scratch slice shared with concurrent Simulate calls (data race)", "a query-side goroutine settling another account during DeliverTx - real threads inside the application, not under the simulator"),
- "C07-j": ("auditor index map from a sync.Pool returned dirty on an early return", "refused all-of bid, then another provider's bid, garbage collection in between on one node"),
+ "C07-j": ("auditor index map from a sync.Pool returned dirty on an early return", "refused all-of bid, then another provider's bid (wrong admission); as a divergence: garbage collection in between on one node only"),
  "C08-i": ("audit records decoded into one reused value: attributes of earlier auditors bleed into later ones", ">=2 auditors attest one provider, the named one only partly"),
  "C08-j": ("registration only checked as a side effect of the attribute match, which is skipped for empty requirements", "unregistered bidder on an order without requirements"),
  "C09-i": ("falls back to a remembered certificate record when the chain query fails", "handshake, revocation, then a handshake while the node is unreachable"),
@@ -188,7 +188,7 @@ SHORT = {
  "C13-i": ("close-bid only when a reservation exists", "restart with a recovered bid, handling ends before any reservation"),
  "C13-j": ("recovered bid in state closed/lost ignored: second create-bid", "bid closed while the order stays open, then restart"),
  "C14-i": ("teardown started on shutdown overwrites the channel of the deploy in flight", "deploy in flight, lease closes, provider shuts down"),
- "C14-j": ("service subscribes to the bus after querying cluster and chain", "lease closes during start-up with an existing workload (start-up path not simulated)"),
+ "C14-j": ("service subscribes to the bus after querying cluster and chain", "lease closes while the service starts over an existing workload"),
  "C15-i": ("bus shutdown stops and waits one subscriber at a time while ranging over the live map", "bus Close racing a subscriber's own Close"),
  "C15-j": ("one decode batch shared by the transaction and the header goroutine of Publish", "a transaction result and a header result in flight at once"),
  "C16-i": ("the feed drops repeated identical events within one result", "the same object makes the same transition twice in one transaction; caught by the C15 feed scenario"),
